@@ -52,12 +52,66 @@ func parseTok(t string) (ion.SymbolToken, bool) {
 	return ion.SymbolToken{Text: &s, LocalSID: sid}, true
 }
 
+// lobArena hands the lob payloads of one call sequence to the Writer the way a caller that cuts one buffer into
+// consecutive chunks does: every payload is a sub-slice of ONE backing array, so its capacity extends over the
+// payloads that follow (and a 64-byte sentinel after the last).  A Writer that appends to or retains-and-grows a
+// caller's slice then corrupts a later payload (the values decoded from the output differ from the calls) or the
+// sentinel (reported by intact()).
+type lobArena struct {
+	parts [][]byte
+	buf   []byte
+	offs  []int
+}
+
+func (a *lobArena) add(b []byte) int {
+	a.parts = append(a.parts, b)
+	a.buf = nil
+	return len(a.parts) - 1
+}
+
+func (a *lobArena) build() {
+	a.buf = nil
+	a.offs = nil
+	for _, p := range a.parts {
+		a.offs = append(a.offs, len(a.buf))
+		a.buf = append(a.buf, p...)
+	}
+	a.offs = append(a.offs, len(a.buf))
+	for i := 0; i < 64; i++ {
+		a.buf = append(a.buf, 0xA5)
+	}
+}
+
+func (a *lobArena) get(k int) []byte {
+	if a.buf == nil {
+		a.build()
+	}
+	return a.buf[a.offs[k]:a.offs[k+1]]
+}
+
+// intact reports whether the sentinel behind the last payload is untouched
+func (a *lobArena) intact() bool {
+	if a.buf == nil {
+		return true
+	}
+	for _, c := range a.buf[a.offs[len(a.offs)-1]:] {
+		if c != 0xA5 {
+			return false
+		}
+	}
+	return true
+}
+
+var arena = &lobArena{}
+
 // one parsed writer call: a closure applying it to a Writer
 type wcall func(w ion.Writer) error
 
 // parseCalls turns the call tokens of the line protocol into closures.
 func parseCalls(ts []string) ([]wcall, bool) {
 	var out []wcall
+	ar := &lobArena{}
+	arena = ar
 	i := 0
 	next := func() (string, bool) {
 		if i >= len(ts) {
@@ -181,9 +235,11 @@ func parseCalls(ts []string) ([]wcall, bool) {
 			case "STR":
 				out = append(out, func(w ion.Writer) error { return w.WriteString(string(b)) })
 			case "CLOB":
-				out = append(out, func(w ion.Writer) error { return w.WriteClob(b) })
+				k := ar.add(b)
+				out = append(out, func(w ion.Writer) error { return w.WriteClob(ar.get(k)) })
 			default:
-				out = append(out, func(w ion.Writer) error { return w.WriteBlob(b) })
+				k := ar.add(b)
+				out = append(out, func(w ion.Writer) error { return w.WriteBlob(ar.get(k)) })
 			}
 		case "BL":
 			out = append(out, func(w ion.Writer) error { return w.BeginList() })
@@ -254,6 +310,10 @@ func parseBudget(s string) (int, bool) {
 func outDrive(f *failWriter, results string, panicAt int) string {
 	if panicAt >= 0 {
 		return fmt.Sprintf("panic %d r%s", panicAt, results)
+	}
+	if !arena.intact() {
+		// the Writer wrote into the caller's memory behind a lob payload: never what the model answers
+		return fmt.Sprintf("ok r%s %s %d caller-memory-overwritten", results, xhex(f.buf.Bytes()), f.writes)
 	}
 	return fmt.Sprintf("ok r%s %s %d", results, xhex(f.buf.Bytes()), f.writes)
 }
